@@ -245,7 +245,7 @@ def conformance(jobs):
                     inpar = False
                 elif inpar and xn in plans and ln.startswith('{"e":"at"'):
                     e = json.loads(ln)
-                    if (e["k"] == 1 and e["o"] == 0) or e["k"] == 4:
+                    if (e["k"] == 1 and e["o"] == 0) or e["k"] in (2, 4):
                         steps.setdefault(xn, []).append(e["t"])
         for i, pl in plans.items():
             checked += 1
